@@ -14,7 +14,20 @@ def run(tier, replay=None):
                     "%s-%s-b%d-cap%d" % (cxx.cell_name(cell), schema, bsel, cap), cell,
                     ["SBEPP_ENABLE_ASSERTS_WITH_HANDLER", "SCHEMA=" + schema, "BIG=%d" % big, "CAP=%d" % cap,
                      "BYTESEL=%d" % bsel]))
-    return lib_run(
+    # constant evaluation (C++20 and later): the closed state space with capacity 5 inside static_asserts
+    from ..evidence import Report
+    rep = Report("C13", tier, "model_checking")
+    ce_cells = [("g++", "c++20"), ("clang++", "c++20")] if tier == "quick" else [("g++", "c++20"), ("g++", "c++23"), ("clang++", "c++20"), ("clang++", "c++2b")]
+    ce_cells = [c for c in ce_cells if not cxx.cell_miscompiles_is_constant_evaluated(c)]
+    ce_types = [("uint16_t", "little"), ("uint8_t", "big")] if tier == "quick" else \
+        [(t, e) for t in ("uint8_t", "uint16_t", "uint32_t", "uint64_t") for e in ("little", "big")]
+    cvs = [libcheck.Variant("ce-%s-%s-%s" % (cxx.cell_name(c), t, e), c, ["LEN_T=sbepp::" + t, "ENDIAN=sbepp::endian::" + e], opt="-O1",
+                            extra=(["-fconstexpr-ops-limit=4000000000", "-fconstexpr-loop-limit=10000000"] if c[0] == "g++" else ["-fconstexpr-steps=2000000000"]),
+                            compile_sig="constexpr-data-ops:static-assert-or-not-constant")
+           for c in ce_cells for t, e in ce_types]
+    lib_run("C13", tier, "c13ce", "c13_constexpr.cpp", cvs, {}, 1, [], [], replay=replay, rep=rep, finish=False)
+    ce_tr, ce_st = rep.cov.get("transitions", 0), rep.cov.get("states", 0)
+    r = lib_run(
         "C13", tier, "c13", "c13_data.cpp", vs,
         {"capacity": cap, "alphabet": "{0, 0x61, 0xE2 | -30}", "length_types": ["uint8", "uint16", "uint32", "uint64"],
          "byte_orders": ["little", "big"], "element_types": ["char", "uint8", "int8"],
@@ -25,4 +38,11 @@ def run(tier, replay=None):
         ["long random operation sequences beyond the closed small-state space are not run (sampling is outside this family)",
          "resize(n, default_init) leaves new elements unspecified; only the old ones are compared",
          "every state of the bounded space is a start state, so depth is irrelevant: the transition relation is covered completely"],
-        replay=replay)
+        replay=replay, rep=rep, finish=False)
+    rep.cov["bounds"]["constant_evaluation"] = "C++20+: contents over {x,y,z} of length <= 4, capacity 5, every operation/argument tuple of the list above that is constexpr (no input-iterator overloads), length types %s, inside static_asserts" % sorted({t for t, _ in ce_types})
+    rep.set("constexpr_transitions", ce_tr)
+    rep.set("constexpr_cells", [cxx.cell_name(c) for c in ce_cells])
+    rep.set("transitions", rep.cov.get("transitions", 0) + ce_tr)
+    rep.set("states", rep.cov.get("states", 0) + ce_st)
+    rep.set("traces_validated_against_impl", rep.cov.get("transitions", 0))
+    return rep.finish()
